@@ -217,7 +217,72 @@ class pristine_library_state:
         LIB.restore(self.cur)
 
 
+NOISE_SENSITIVE = (".ord.", ".val.ns", ".val.npa1", ".val.tsirelson", ".val.reps_power", ".val.same_as_game", "hedge.primal_dual",
+                   "hedge.model", "hedge.max_ge_min", "hedge.reps", "C12.val.", "C14.sk.order", "C14.sk.witness", "C14.sk.lower_valid", "C14.sk.exact")
+
+
+class accurate_solver:
+    """While active, every cvxpy solve that the code under test issues WITHOUT choosing a solver or solver options
+    is carried out to high accuracy (Clarabel, falling back to SCS with eps 1e-9).  Used only to tell solver noise
+    from a real violation: a tolerance-based invariant that fails with the library's default solver settings is
+    reported only if it still fails when the same run is repeated with accurate solves."""
+
+    def __enter__(self):
+        import cvxpy
+
+        self.cvxpy = cvxpy
+        self.orig = cvxpy.Problem.solve
+        orig = self.orig
+
+        def solve(prob, *args, **kwargs):
+            if args or kwargs:
+                return orig(prob, *args, **kwargs)
+            try:
+                v = orig(prob, solver=cvxpy.CLARABEL)
+                if prob.status == "optimal":
+                    return v
+            except Exception:
+                pass
+            try:
+                v = orig(prob, solver=cvxpy.SCS, eps=1e-9, max_iters=500000)
+                if prob.status == "optimal":
+                    return v
+            except Exception:
+                pass
+            return orig(prob)
+
+        cvxpy.Problem.solve = solve
+        return self
+
+    def __exit__(self, *a):
+        self.cvxpy.Problem.solve = self.orig
+
+
+def _noise_sensitive(inv):
+    return any(t in inv for t in NOISE_SENSITIVE)
+
+
 def execute(engine, cs: ChoiceSource, tier: str, run_index: int) -> RunResult:
+    res = _execute_once(engine, cs, tier, run_index)
+    suspects = sorted(set(inv for inv, _ in res.violations if _noise_sensitive(inv)))
+    if suspects:
+        # same run (same choices), accurate solves: what persists is a violation, what vanishes was solver noise
+        cs2 = ChoiceSource(recorded=cs.taken())
+        try:
+            with accurate_solver():
+                res2 = _execute_once(engine, cs2, tier, run_index)
+            still = set(inv for inv, _ in res2.violations)
+        except BaseException:
+            still = set(suspects)  # could not be confirmed either way: keep the report
+        dropped = [inv for inv in suspects if inv not in still]
+        if dropped:
+            res.violations = [(inv, det) for inv, det in res.violations if inv not in dropped]
+            for inv in dropped:
+                res.failed("solver_noise:" + inv)
+    return res
+
+
+def _execute_once(engine, cs: ChoiceSource, tier: str, run_index: int) -> RunResult:
     """One simulated run, started from pristine process-global state.  Library exceptions are the
     engine's business; an exception escaping here is a harness error."""
     import random as _pyrandom
